@@ -1,6 +1,6 @@
 import Gimli.Drv.Util
 /-!
-C20 requests (`c20-ctx`, `c20-entry`, `c20-tree`, `c20-clone`, `c20-cache`, `c20-recache`): each describes a
+C20 requests (`c20-ctx`, `c20-entry`, `c20-tree`, `c20-clone`, `c20-cache`, `c20-recache`, `c20-line`): each describes a
 history run on reused state and on fresh state by the implementation side. The Model's answer is
 `ok same`: reused state behaves like fresh state — the statement of the theorems in
 `Props/C20.lean`.
@@ -8,7 +8,7 @@ history run on reused state and on fresh state by the implementation side. The M
 namespace Gimli.Drv.C20
 
 def handle (op : String) (_args : List String) : Option String :=
-  if op == "c20-ctx" || op == "c20-entry" || op == "c20-tree" || op == "c20-clone" || op == "c20-cache" || op == "c20-recache"
+  if op == "c20-ctx" || op == "c20-entry" || op == "c20-tree" || op == "c20-clone" || op == "c20-cache" || op == "c20-recache" || op == "c20-line"
   then some "ok same" else none
 
 end Gimli.Drv.C20
